@@ -21,6 +21,7 @@ import (
 	"reduction.dev/reduction/proto"
 	"reduction.dev/reduction/proto/jobpb"
 	"reduction.dev/reduction/proto/workerpb"
+	"reduction.dev/reduction/util/verifhook"
 	"reduction.dev/reduction/workers/wmark"
 )
 
@@ -199,6 +200,7 @@ func (r *SourceRunner) HandleDeploy(ctx context.Context, msg *workerpb.DeploySou
 	}
 
 	r.watermarkTicker = time.NewTicker(time.Millisecond * 200)
+	r.watermarkTicker.Reset(time.Duration(verifhook.Tune("sourcerunner.watermarkTickMs", 200)) * time.Millisecond)
 
 	deploymentCtx, cancel := context.WithCancel(context.Background())
 	r.stopLoop = cancel
@@ -296,6 +298,7 @@ func (r *SourceRunner) HandleStartCheckpoint(ctx context.Context, id uint64) {
 }
 
 func (r *SourceRunner) sendOperatorEvent(event *workerpb.Event) error {
+	defer verifhook.At("sourcerunner.sent")
 	switch typedEvent := event.Event.(type) {
 	case *workerpb.Event_KeyedEvent:
 		// Get the async result for this placeholder event
